@@ -5,13 +5,13 @@ pub fn allocate<T>(num: usize) -> *mut T {
     let rptr = vec.as_ptr();
     mem::forget(vec);
     #[cfg(feature = "multiqueue2_verif")]
-    crate::verif_hooks::on_alloc(rptr as usize, num * mem::size_of::<T>());
+    crate::verif_hooks::on_alloc(rptr as usize, num * mem::size_of::<T>(), mem::align_of::<T>());
     rptr as *mut T
 }
 
 pub fn deallocate<T>(tofree: *mut T, num: usize) {
     #[cfg(feature = "multiqueue2_verif")]
-    if crate::verif_hooks::on_dealloc(tofree as usize, num * mem::size_of::<T>()) {
+    if crate::verif_hooks::on_dealloc(tofree as usize, num * mem::size_of::<T>(), mem::align_of::<T>()) {
         return;
     }
     unsafe {
